@@ -78,6 +78,18 @@ func (fr *Frame) doCall(ins ssa.Instruction, c *ssa.CallCommon, args []Val, rt t
 		}
 	}
 	if callee == nil {
+		if tg := q.eng.funcValueTargets(c.Value.Type()); tg != nil {
+			ms := &ModSet{Arrs: map[string]bool{}}
+			for _, f := range tg {
+				if m := q.eng.modsets[f]; m != nil {
+					ms.add(m)
+				} else {
+					ms.All = true
+				}
+			}
+			fr.havocMod(st, ms)
+			return fr.freshVal(fr.prefix+"_dyn", rt, fr.cur.reach, st), true
+		}
 		q.note("dynamic call in " + fnKey(fr.fn))
 		fr.havocMod(st, &ModSet{All: true})
 		return fr.freshVal(fr.prefix+"_dyn", rt, fr.cur.reach, st), true
